@@ -21,6 +21,7 @@ import (
 	"path/filepath"
 	"sort"
 	"strings"
+	"time"
 
 	"github.com/honeytrap/honeytrap/services/filesystem"
 	"verif/harness/hx"
@@ -92,6 +93,27 @@ func oddPath(r *hx.Rand) string {
 	}
 	return s
 }
+
+// Paths that begin with the HOST-side spelling of the service root (absolute, relative,
+// doubled/trailing separators), followed by "..", ".", empty and dotted components: a client
+// can send them like any other string.
+var hostSuffixes = []string{"", ".", "..", "...", "/", "//", "/.", "/..", "/...", "/../", "/../..", "/../../", "/../../..", "//..//..",
+	"/./../.", "/../b", "/../../b", "/../a/b", "/../../a/b", "/a/../../b", "/../secret.txt", "/../../secret.txt", "/../made", "/../../made",
+	"/a", "/a/b", "/b", "/a/..", "/a/../..", "/a/a/../../..", "/..\\..", "\\..\\..", "/../root", "/../root/b", "/../../ftp/root/b"}
+
+func hostPaths(root string) []string {
+	var out []string
+	for _, pre := range []string{root, strings.TrimPrefix(root, "/"), "/" + root, root + "/", "./" + root, "a/../.." + root} {
+		for _, suf := range hostSuffixes {
+			out = append(out, pre+suf)
+		}
+	}
+	return out
+}
+
+// ".." and other components delimited by backslashes (one ordinary component on unix)
+var backslashPaths = []string{"..\\..", "..\\..\\secret.txt", "..\\secret.txt", "..\\b", "..\\..\\b", "a\\..\\..\\..\\b", "/..\\..", "/..\\..\\secret.txt",
+	"a\\b", "\\a\\b", "..\\..\\made", "..\\made", "a/..\\..\\..\\b", "..\\../b", "../..\\b", "\\..\\..\\secret.txt", "..\\..\\a\\b", "b\\", "\\", "..\\"}
 
 // a path argument that survives the FTP line parser unchanged: no CR/LF/NUL and no
 // white space at either end
@@ -234,6 +256,51 @@ func (w window) reset() {
 	}
 	for _, t := range cwdSpec {
 		mustWrite(filepath.Join(w.cwdTop, t.rel), t.dir, t.data)
+	}
+	w.stamp()
+}
+
+var (
+	outsideTime = time.Date(2001, 2, 3, 4, 5, 0, 0, time.UTC)
+	insideTime  = time.Date(2010, 10, 10, 10, 10, 0, 0, time.UTC)
+)
+
+// stamp gives every entry outside the root a mode and modification time that nothing inside
+// the root has (directories 0751, files 0640, 2001-02-03 04:05) and the initial content of
+// the root a fixed time of its own: metadata of an outside entry is recognisable in a listing.
+func (w window) stamp() {
+	for _, top := range []string{w.base, w.abs, w.cwdTop} {
+		var paths []string
+		filepath.Walk(top, func(p string, info os.FileInfo, err error) error {
+			if err == nil {
+				paths = append(paths, p)
+			}
+			return nil
+		})
+		// children before parents: creating nothing, but chtimes of a parent last is tidier
+		for i := len(paths) - 1; i >= 0; i-- {
+			p := paths[i]
+			info, err := os.Lstat(p)
+			if err != nil {
+				hx.Fatal("stamp: %v", err)
+			}
+			if p == w.root || strings.HasPrefix(p, w.root+"/") {
+				if err := os.Chtimes(p, insideTime, insideTime); err != nil {
+					hx.Fatal("stamp: %v", err)
+				}
+				continue
+			}
+			mode := os.FileMode(0o640)
+			if info.IsDir() {
+				mode = 0o751
+			}
+			if err := os.Chmod(p, mode); err != nil {
+				hx.Fatal("stamp: %v", err)
+			}
+			if err := os.Chtimes(p, outsideTime, outsideTime); err != nil {
+				hx.Fatal("stamp: %v", err)
+			}
+		}
 	}
 }
 
@@ -427,7 +494,11 @@ func main() {
 		replay = &in
 	}
 	quick := o.Tier == "quick"
+	// search (run by the driver when a proof or the correspondence broke and no failing input
+	// is in hand yet): about three times quick, a minute at most
+	search := o.Tier == "search"
 	all := enumPaths(5)
+	host := hostPaths(w.root)
 
 	// ---------- lib ----------
 	if replay == nil || replay.Part == "lib" {
@@ -436,7 +507,7 @@ func main() {
 			ins = []Input{*replay}
 		} else {
 			for i, p := range all {
-				if quick && compCount(strings.TrimPrefix(p, "/")) > 3 && !r.Chance(1, 12) {
+				if (quick || search) && compCount(strings.TrimPrefix(p, "/")) > 3 && !r.Chance(1, 12) {
 					continue
 				}
 				q := libBases[i%len(libBases)]
@@ -445,8 +516,18 @@ func main() {
 				}
 				ins = append(ins, Input{Part: "lib", P: hx.B(p), Q: hx.B(q)})
 			}
+			// the host-side spelling of the root as a prefix, and backslash-delimited components
+			for i, p := range host {
+				q := []string{w.root, "/", "", "/a", w.root + "/a"}[i%5]
+				ins = append(ins, Input{Part: "lib", P: hx.B(p), Q: hx.B(q)})
+			}
+			for i, p := range backslashPaths {
+				ins = append(ins, Input{Part: "lib", P: hx.B(p), Q: hx.B([]string{"/", w.root, "/a"}[i%3])})
+			}
 			n := 150
-			if !quick {
+			if search {
+				n = 500
+			} else if !quick {
 				n = 1500
 			}
 			for i := 0; i < n; i++ {
@@ -484,7 +565,7 @@ func main() {
 			ins = []Input{*replay}
 		} else {
 			for i, p := range all {
-				if quick && !r.Chance(1, 14) && compCount(strings.TrimPrefix(p, "/")) > 2 {
+				if (quick || search) && !r.Chance(1, 14) && compCount(strings.TrimPrefix(p, "/")) > 2 {
 					continue
 				}
 				c := cwds[i%len(cwds)]
@@ -493,8 +574,14 @@ func main() {
 				}
 				ins = append(ins, Input{Part: "htfs", Ops: []Op{{V: "cd", P: hx.B(c)}, {V: "real", P: hx.B(p)}, {V: "cd", P: hx.B(p)}, {V: "real", P: hx.B("")}, {V: "real", P: hx.B("b")}}})
 			}
+			for i, p := range append(append([]string(nil), host...), backslashPaths...) {
+				c := cwds[i%len(cwds)]
+				ins = append(ins, Input{Part: "htfs", Ops: []Op{{V: "real", P: hx.B(p)}, {V: "cd", P: hx.B(c)}, {V: "real", P: hx.B(p)}, {V: "cd", P: hx.B(p)}, {V: "real", P: hx.B("")}, {V: "real", P: hx.B("../b")}}})
+			}
 			n := 150
-			if !quick {
+			if search {
+				n = 500
+			} else if !quick {
 				n = 1500
 			}
 			for i := 0; i < n; i++ {
@@ -507,6 +594,10 @@ func main() {
 					}
 					if r.Chance(1, 8) {
 						p = oddPath(r)
+					} else if r.Chance(1, 8) {
+						p = host[r.Intn(len(host))]
+					} else if r.Chance(1, 12) {
+						p = backslashPaths[r.Intn(len(backslashPaths))]
 					}
 					v := "cd"
 					if r.Chance(1, 3) {
